@@ -18,6 +18,7 @@ import KcpVerif.Lemmas.SysDrainHead3
 import KcpVerif.Lemmas.SysDrainOrder
 import KcpVerif.Lemmas.SysDrainHead4
 import KcpVerif.Lemmas.SysDrainAll
+import KcpVerif.Lemmas.SysDrainFull
 /-! C02 — eventual delivery: a healed network always drains the backlog. -/
 namespace KcpVerif.Props
 open KcpVerif KcpVerif.Gen KcpVerif.Kcp KcpVerif.Live
@@ -1165,5 +1166,67 @@ set_option maxRecDepth 1000000 in
 example : SysC.RunP (SysC.DrainHyp ⟨c02A.snd_nxt, c02A.conv, 0, 0, 0⟩ 300 10)
     (SysC.netRun (Sys.init c02A c02A 0 1000) c02DrainPre) c02DrainEvs :=
   SysC.runChk_sound ⟨c02A.snd_nxt, c02A.conv, 0, 0, 0⟩ 300 10 _ _ (by decide)
+
+/-! ### the drain with a non-empty send queue (congestion window off)
+
+The induction is now over `WaitSnd = |snd_buf| + |snd_queue|`.  Without `Send`, `|snd_queue| + snd_nxt`
+is constant (`SysC.qn_run`), so `WaitSnd` falls exactly by the advance of `snd_una` (`SysC.wait_run`).
+One stage (`SysC.stage_full`, `fullStage` ms) makes `snd_una` advance whenever something is waiting:
+
+1. within one probe round A's `rmt_wnd` is non-zero (`C03_zero_window_probe_bound`, Props/C03.lean) and
+   stays so: every datagram on its way to A carries a non-zero window (`SysC.FreshBa`, kept by every
+   event while B's queue is not full — `SysC.freshBa_step`, `SysC.rmt_keep_step`);
+2. if nothing is outstanding, A's next full flush numbers a segment (`SysC.flush_admits`,
+   `SysC.adm_run`) — here the congestion window is assumed off (`nocwnd ≠ 0`, the setting of
+   `NoDelay(_, _, _, 1)`), so the effective window is `min(snd_wnd, rmt_wnd)`;
+3. the head of the send buffer is released (`C02_progress_step_every_head`).
+
+Run hypotheses, all checks on single states (`SysC.FullHyp`; Boolean form `SysC.runFullChk`): `Small`;
+`QB` — B's receive queue is not full and `rcv_wnd < 65536` in EVERY state (stronger than the reader
+condition `QOk` of `C02_drain_partial`: the window must exceed what arrives between two reads);
+`TmrOk Rmax` as before; `CfgA` — `nocwnd ≠ 0`, `0 < snd_wnd < 2^31`.  On the start state: `FreshBa`
+(e.g. nothing on its way to A). -/
+
+open KcpVerif.Sys KcpVerif.SysC in
+/-- **one stage of the general drain** -/
+theorem C02_drain_stage_general {p : Par} {IA IB Rmax : Nat} {s : State} (hi : Inv3 p IA IB s) (hIA : IA < 2 ^ 29)
+    (hR : Rmax + IA < 2 ^ 31) (hw : 0 < s.A.waitSnd) (evs : List Ev) (hns : ∀ ev ∈ evs, isSend ev = false)
+    (hr : RunP (FullHyp p Rmax IA) s evs) (hnow : s.now + fullStage Rmax IA IB s.D < (Sys.run s evs).now) :
+    o p.base s.A.snd_una < o p.base (Sys.run s evs).A.snd_una :=
+  stage_full hi hIA hR hw evs hns hr hnow
+
+open KcpVerif.Sys KcpVerif.SysC in
+/-- **`C02_drain`, any send queue, congestion window off**: two fresh endpoints, ANY history `pre` of
+writes, reads, events and network faults; from the state it leaves the writer stops, the links are fair
+and B's receive queue is never full.  Once the clock has advanced by `WaitSnd · (fullStage + 1)` ms —
+`fullStage = (IKCP_PROBE_LIMIT + 2·IA + 2·D + IB + 1) + (IA + 1) + (Rmax + IA + 2·D + IB)` — `WaitSnd = 0`
+and the receiver has handed every numbered segment to the reader's queue. -/
+theorem C02_drain_general_partial (A B : Kcp) (D t0 : Nat) (ndA ndB : Bool) (hinit : ConsInit A B)
+    (hpw : A.probe_wait = 0) (hIA : A.interval.toNat < 2 ^ 29) (pre : List NetEv)
+    (hpre : NetNoWrap A.snd_nxt (Sys.init A B D t0 ndA ndB) pre) (Rmax : Nat) (hR : Rmax + A.interval.toNat < 2 ^ 31)
+    (hfresh : FreshBa (netRun (Sys.init A B D t0 ndA ndB) pre))
+    (evs : List Ev) (hns : ∀ ev ∈ evs, isSend ev = false)
+    (hr : RunP (FullHyp ⟨A.snd_nxt, A.conv, 0, 0, 0⟩ Rmax A.interval.toNat) (netRun (Sys.init A B D t0 ndA ndB) pre) evs)
+    (hnow : (netRun (Sys.init A B D t0 ndA ndB) pre).now + (netRun (Sys.init A B D t0 ndA ndB) pre).A.waitSnd *
+      (fullStage Rmax A.interval.toNat B.interval.toNat (netRun (Sys.init A B D t0 ndA ndB) pre).D + 1) ≤
+      (Sys.run (netRun (Sys.init A B D t0 ndA ndB) pre) evs).now) :
+    (Sys.run (netRun (Sys.init A B D t0 ndA ndB) pre) evs).A.waitSnd = 0 ∧
+    (Sys.run (netRun (Sys.init A B D t0 ndA ndB) pre) evs).B.rcv_nxt =
+      (Sys.run (netRun (Sys.init A B D t0 ndA ndB) pre) evs).A.snd_nxt := by
+  obtain ⟨hi, hpi⟩ := inv_pinv_netRun (by omega) pre _ (inv_init A B D t0 ndA ndB hinit)
+    (pinv_init A B D t0 ndA ndB hpw) hpre
+  have hi3 : Inv3 ⟨A.snd_nxt, A.conv, 0, 0, 0⟩ A.interval.toNat B.interval.toNat (netRun (Sys.init A B D t0 ndA ndB) pre) :=
+    ⟨hi, hpi, hfresh⟩
+  have hw := drain_full_all hIA hR _ _ hi3 (Nat.le_refl _) evs hns hr hnow
+  refine ⟨hw, ?_⟩
+  have hi' := inv3_run (by omega) evs _ hi3 hr
+  have hq' := (RunP.last evs _ hr).2.1.1
+  obtain ⟨g1, g2, hc'⟩ := hi'.inv.cons
+  unfold Kcp.waitSnd at hw
+  generalize Sys.run (netRun (Sys.init A B D t0 ndA ndB) pre) evs = s' at *
+  have hnb : o A.snd_nxt s'.A.snd_una ≤ o A.snd_nxt s'.B.rcv_nxt := not_behind hc' hi'.inv.side.srt hi'.inv.side.fix hq'
+  have hcon : o A.snd_nxt s'.A.snd_una + s'.A.snd_buf.length = o A.snd_nxt s'.A.snd_nxt := hc'.acon.2
+  have hbub : o A.snd_nxt s'.B.rcv_nxt ≤ o A.snd_nxt s'.A.snd_nxt := hc'.bub
+  exact o_inj A.snd_nxt _ _ (by omega)
 
 end KcpVerif.Props
